@@ -2,3 +2,623 @@
 From TV.Lib Require Import Base.
 From TV.NetPure Require Import Gen Ip Sock.
 Open Scope N_scope.
+
+(* ---- decidable equalities --------------------------------------------------- *)
+Lemma ip_eqb_eq a b : ip_eqb a b = true <-> a = b.
+Proof.
+  destruct a, b; cbn; rewrite ?N.eqb_eq; split; intros H; try discriminate; try congruence.
+Qed.
+Lemma ip_eqb_refl a : ip_eqb a a = true.
+Proof. now apply ip_eqb_eq. Qed.
+Lemma dom_eqb_eq a b : dom_eqb a b = true <-> a = b.
+Proof. destruct a, b; cbn; split; congruence. Qed.
+Lemma sty_eqb_eq a b : sty_eqb a b = true <-> a = b.
+Proof. destruct a, b; cbn; split; congruence. Qed.
+Lemma bkey_eqb_eq a b : bkey_eqb a b = true <-> a = b.
+Proof.
+  destruct a as [d1 t1 a1 p1], b as [d2 t2 a2 p2]. unfold bkey_eqb; cbn.
+  rewrite !andb_true_iff, dom_eqb_eq, sty_eqb_eq, ip_eqb_eq, N.eqb_eq.
+  split; [intros [[[-> ->] ->] ->]; reflexivity|intros [= -> -> -> ->]; auto].
+Qed.
+Lemma bkey_eqb_refl a : bkey_eqb a a = true.
+Proof. now apply bkey_eqb_eq. Qed.
+Lemma saddr_eqb_eq (a b : saddr) : saddr_eqb a b = true <-> a = b.
+Proof.
+  destruct a, b. unfold saddr_eqb; cbn. rewrite andb_true_iff, ip_eqb_eq, N.eqb_eq.
+  split; [intros [-> ->]; reflexivity|intros [= -> ->]; auto].
+Qed.
+Lemma conn_key_eqb_eq a b : conn_key_eqb a b = true <-> a = b.
+Proof.
+  destruct a, b. unfold conn_key_eqb; cbn. rewrite andb_true_iff, !saddr_eqb_eq.
+  split; [intros [-> ->]; reflexivity|intros [= -> ->]; auto].
+Qed.
+
+(* ---- conflicts, declaratively -------------------------------------------------- *)
+Definition Overlap (a b : bkey) : Prop :=
+  b_dom a = b_dom b /\ b_ty a = b_ty b /\ b_port a = b_port b /\
+  (b_addr a = b_addr b \/ is_unspec (b_addr a) = true \/ is_unspec (b_addr b) = true).
+
+Lemma conflicts_spec a b : conflicts a b = true <-> Overlap a b.
+Proof.
+  unfold conflicts, on_port, Overlap.
+  rewrite !andb_true_iff, !orb_true_iff, dom_eqb_eq, sty_eqb_eq, N.eqb_eq, ip_eqb_eq. tauto.
+Qed.
+
+Definition keys (k : kern) : list bkey := map fst (k_binds k).
+Definition Conflicts (k : kern) (key : bkey) : Prop := exists key', In key' (keys k) /\ Overlap key' key.
+Definition addr_ok (k : kern) (a : ip) : Prop := is_unspec a = true \/ is_local_k k a = true.
+
+Lemma existsb_conflicts k key :
+  existsb (fun kb => conflicts (fst kb) key) (k_binds k) = true <-> Conflicts k key.
+Proof.
+  rewrite existsb_exists. unfold Conflicts, keys. split.
+  - intros ([k' fds] & Hin & Hc). exists k'. split; [apply in_map_iff; exists (k', fds); auto|].
+    now apply conflicts_spec.
+  - intros (k' & Hin & Ho). apply in_map_iff in Hin as ([k'' fds] & <- & Hin).
+    exists (k'', fds). split; auto. now apply conflicts_spec.
+Qed.
+
+(* ---- bind ------------------------------------------------------------------------ *)
+Lemma bind_result k a port t : port <> 0 ->
+  let key := mkkey (dom_of a) t a port in
+  snd (bind k a port t) =
+    if negb (is_unspec a) && negb (is_local_k k a) then inl AddrNotAvailable
+    else if existsb (fun kb => conflicts (fst kb) key) (k_binds k) then inl AddrInUse
+    else inr (k_nextfd k, port).
+Proof.
+  intros Hp key. unfold bind. destruct (negb (is_unspec a) && negb (is_local_k k a)); [reflexivity|].
+  apply N.eqb_neq in Hp. rewrite Hp. fold key.
+  destruct (existsb (fun kb => conflicts (fst kb) key) (k_binds k)); reflexivity.
+Qed.
+
+Lemma addr_ok_dec k a : negb (is_unspec a) && negb (is_local_k k a) = false <-> addr_ok k a.
+Proof.
+  unfold addr_ok. destruct (is_unspec a), (is_local_k k a); cbn; intuition discriminate.
+Qed.
+
+Lemma bind_ok_iff_lemma k a port t : port <> 0 ->
+  let key := mkkey (dom_of a) t a port in
+  (snd (bind k a port t) = inr (k_nextfd k, port) <-> addr_ok k a /\ ~ Conflicts k key) /\
+  (snd (bind k a port t) = inl AddrNotAvailable <-> ~ addr_ok k a) /\
+  (snd (bind k a port t) = inl AddrInUse <-> addr_ok k a /\ Conflicts k key) /\
+  (forall r, snd (bind k a port t) = inr r -> r = (k_nextfd k, port)).
+Proof.
+  intros Hp key. rewrite (bind_result k a port t Hp). fold key.
+  pose proof (addr_ok_dec k a) as Ha. pose proof (existsb_conflicts k key) as Hc.
+  destruct (negb (is_unspec a) && negb (is_local_k k a)).
+  - assert (~ addr_ok k a) by (intros H; apply Ha in H; discriminate).
+    repeat split; intros; try discriminate; try tauto.
+  - assert (addr_ok k a) by (now apply Ha).
+    destruct (existsb (fun kb => conflicts (fst kb) key) (k_binds k)).
+    + assert (Conflicts k key) by (now apply Hc).
+      repeat split; intros; try discriminate; try tauto.
+    + assert (~ Conflicts k key) by (intros Hx; apply Hc in Hx; discriminate).
+      repeat split; intros; try discriminate; try tauto. congruence.
+Qed.
+
+(* ---- the ephemeral port allocator ----------------------------------------------------- *)
+Section Alloc.
+Variables lo hi start : N.
+Variable in_use : N -> bool.
+Hypothesis Hlo : lo <= start.
+Hypothesis Hhi : start <= hi.
+
+Definition size : N := hi - lo + 1.
+(* number of steps from the cursor to p in cyclic order *)
+Definition dist (p : N) : N := if start <=? p then p - start else p + size - start.
+Definition next (p : N) : N := if p =? hi then lo else p + 1.
+Definition inr_ (p : N) : Prop := lo <= p /\ p <= hi.
+
+Lemma next_in p : inr_ p -> inr_ (next p).
+Proof. unfold inr_, next. destruct (N.eqb_spec p hi); lia. Qed.
+
+Lemma dist_lt p : inr_ p -> dist p < size.
+Proof. unfold inr_, dist, size. destruct (N.leb_spec start p); lia. Qed.
+
+Lemma next_start p : inr_ p -> (next p = start <-> dist p = size - 1).
+Proof.
+  unfold inr_, next, dist, size. destruct (N.eqb_spec p hi), (N.leb_spec start p); lia.
+Qed.
+
+Lemma dist_next p : inr_ p -> next p <> start -> dist (next p) = dist p + 1.
+Proof.
+  unfold inr_, next, dist, size.
+  destruct (N.eqb_spec p hi), (N.leb_spec start p);
+    try destruct (N.leb_spec start lo); try destruct (N.leb_spec start (p + 1)); lia.
+Qed.
+
+Lemma dist_inj p q : inr_ p -> inr_ q -> dist p = dist q -> p = q.
+Proof.
+  unfold inr_, dist, size. destruct (N.leb_spec start p), (N.leb_spec start q); lia.
+Qed.
+
+Lemma alloc_some fuel : forall cur p c,
+  inr_ cur -> alloc_loop fuel lo hi start cur in_use = (Some p, c) ->
+  inr_ p /\ in_use p = false /\ c = next p /\ dist cur <= dist p /\
+  (forall q, inr_ q -> dist cur <= dist q -> dist q < dist p -> in_use q = true).
+Proof.
+  induction fuel as [|f IH]; intros cur p c Hc; cbn [alloc_loop]; [discriminate|].
+  fold (next cur). destruct (in_use cur) eqn:Eu; cbn [negb].
+  - destruct (N.eqb_spec (next cur) start) as [Es|Es]; [discriminate|].
+    intros H. apply IH in H as (H1 & H2 & H3 & H4 & H5); [|now apply next_in].
+    rewrite (dist_next cur Hc Es) in *.
+    split; [exact H1|]. split; [exact H2|]. split; [exact H3|]. split; [lia|].
+    intros q Hq Hq1 Hq2. destruct (N.eq_dec (dist q) (dist cur)) as [E|E].
+    + apply dist_inj in E; auto. now subst.
+    + apply H5; auto. lia.
+  - intros [= <- <-]. split; [exact Hc|]. split; [exact Eu|]. split; [reflexivity|]. split; [lia|].
+    intros; lia.
+Qed.
+
+Lemma alloc_none fuel : forall cur c,
+  inr_ cur -> N.of_nat fuel = size - dist cur ->
+  alloc_loop fuel lo hi start cur in_use = (None, c) ->
+  forall q, inr_ q -> dist cur <= dist q -> in_use q = true.
+Proof.
+  induction fuel as [|f IH]; intros cur c Hc Hf; cbn [alloc_loop].
+  - pose proof (dist_lt cur Hc). lia.
+  - fold (next cur). destruct (in_use cur) eqn:Eu; cbn [negb]; [|discriminate].
+    destruct (N.eqb_spec (next cur) start) as [Es|Es].
+    + intros _ q Hq Hd. apply next_start in Es; auto. pose proof (dist_lt q Hq).
+      assert (E : dist q = dist cur) by lia. apply dist_inj in E; auto. now subst.
+    + intros H q Hq Hd. pose proof (dist_next cur Hc Es) as Hn.
+      destruct (N.eq_dec (dist q) (dist cur)) as [E|E].
+      * apply dist_inj in E; auto. now subst.
+      * apply (IH (next cur) c); [now apply next_in|lia|exact H|exact Hq|lia].
+Qed.
+
+Lemma alloc_all_used fuel : forall cur,
+  inr_ cur -> (forall q, inr_ q -> in_use q = true) ->
+  fst (alloc_loop fuel lo hi start cur in_use) = None.
+Proof.
+  induction fuel as [|f IH]; intros cur Hc Hall; cbn [alloc_loop]; [reflexivity|].
+  fold (next cur). rewrite (Hall cur Hc). cbn [negb].
+  destruct (next cur =? start); [reflexivity|]. apply IH; auto. now apply next_in.
+Qed.
+
+Lemma dist_start : dist start = 0.
+Proof. unfold dist. destruct (N.leb_spec start start); lia. Qed.
+
+Lemma allocate_spec :
+  match allocate lo hi start in_use with
+  | (Some p, c) => inr_ p /\ in_use p = false /\ c = next p /\
+                   (forall q, inr_ q -> dist q < dist p -> in_use q = true)
+  | (None, _) => forall q, inr_ q -> in_use q = true
+  end.
+Proof.
+  unfold allocate. assert (Hs : inr_ start) by (split; assumption).
+  destruct (alloc_loop (N.to_nat (hi - lo + 1)) lo hi start start in_use) as [[p|] c] eqn:E.
+  - apply alloc_some in E as (H1 & H2 & H3 & H4 & H5); auto.
+    split; [exact H1|]. split; [exact H2|]. split; [exact H3|]. intros q Hq Hd. apply H5; auto. rewrite dist_start. lia.
+  - intros q Hq. apply (alloc_none (N.to_nat (hi - lo + 1)) start c Hs); [|exact E|exact Hq|].
+    + rewrite dist_start, N2Nat.id. unfold size. lia.
+    + rewrite dist_start. lia.
+Qed.
+
+Lemma allocate_none_iff :
+  fst (allocate lo hi start in_use) = None <-> (forall q, inr_ q -> in_use q = true).
+Proof.
+  split.
+  - intros H. pose proof allocate_spec as S. destruct (allocate lo hi start in_use) as [[p|] c]; [discriminate|exact S].
+  - intros H. unfold allocate. apply alloc_all_used; auto. split; assumption.
+Qed.
+End Alloc.
+
+(* ---- port 0 ----------------------------------------------------------------------------- *)
+Definition cursor_ok (k : kern) : Prop := eph_lo <= k_cursor k /\ k_cursor k <= eph_hi.
+Definition port_free (k : kern) (d : dom) (t : sty) (p : N) : Prop :=
+  forall key, In key (keys k) -> ~ (b_dom key = d /\ b_ty key = t /\ b_port key = p).
+
+Lemma in_use_port_spec k d t p : in_use_port k d t p = false <-> port_free k d t p.
+Proof.
+  unfold in_use_port, port_free, keys. split.
+  - intros H key Hin (H1 & H2 & H3). apply in_map_iff in Hin as ([k' fds] & <- & Hin).
+    assert (existsb (fun kb => on_port d t p (fst kb)) (k_binds k) = true); [|congruence].
+    apply existsb_exists. exists (k', fds). split; auto. unfold on_port. cbn in *.
+    rewrite H1, H2, H3. destruct d, t; cbn; now rewrite N.eqb_refl.
+  - intros H. apply not_true_is_false. intros Hx. apply existsb_exists in Hx as ([k' fds] & Hin & Ho).
+    unfold on_port in Ho. cbn in Ho. apply andb_true_iff in Ho as [Ho H3]. apply andb_true_iff in Ho as [H1 H2].
+    apply (H k'); [apply in_map_iff; exists (k', fds); auto|].
+    apply dom_eqb_eq in H1. apply sty_eqb_eq in H2. apply N.eqb_eq in H3. auto.
+Qed.
+
+Lemma port_free_no_conflict k a t p :
+  port_free k (dom_of a) t p -> ~ Conflicts k (mkkey (dom_of a) t a p).
+Proof.
+  intros Hf (key' & Hin & (H1 & H2 & H3 & _)). cbn in *. apply (Hf key' Hin). auto.
+Qed.
+
+Lemma alloc_loop_cursor fuel lo hi start in_use : forall cur,
+  lo <= cur <= hi -> lo <= snd (alloc_loop fuel lo hi start cur in_use) <= hi.
+Proof.
+  induction fuel as [|f IH]; intros cur Hc; cbn [alloc_loop]; [exact Hc|].
+  assert (Hn : lo <= (if cur =? hi then lo else cur + 1) <= hi) by (destruct (N.eqb_spec cur hi); lia).
+  destruct (in_use cur); cbn [negb]; [|exact Hn].
+  destruct ((if cur =? hi then lo else cur + 1) =? start); [exact Hn|]. now apply IH.
+Qed.
+
+Lemma eph_range : eph_lo <= eph_hi.
+Proof. vm_compute. discriminate. Qed.
+
+Lemma allocate_cursor lo hi cur in_use :
+  lo <= cur <= hi -> lo <= snd (allocate lo hi cur in_use) <= hi.
+Proof. intros H. unfold allocate. now apply alloc_loop_cursor. Qed.
+
+Lemma bind_port0_lemma k a t : cursor_ok k ->
+  let d := dom_of a in
+  match snd (bind k a 0 t) with
+  | inr (fd, p) => addr_ok k a /\ fd = k_nextfd k /\ eph_lo <= p /\ p <= eph_hi /\ port_free k d t p
+  | inl AddrNotAvailable => ~ addr_ok k a
+  | inl AddrInUse => addr_ok k a /\ forall p, eph_lo <= p -> p <= eph_hi -> ~ port_free k d t p
+  end /\ cursor_ok (fst (bind k a 0 t)).
+Proof.
+  intros [C1 C2] d. unfold bind. pose proof (addr_ok_dec k a) as Ha.
+  destruct (negb (is_unspec a) && negb (is_local_k k a)).
+  - cbn [fst snd]. split; [|split; assumption]. intros H. apply Ha in H. discriminate.
+  - assert (Hok : addr_ok k a) by (now apply Ha). change (0 =? 0) with true. cbv iota.
+    unfold allocate_port. fold d.
+    pose proof (allocate_spec eph_lo eph_hi (k_cursor k) (in_use_port k d t) C1 C2) as S.
+    pose proof (allocate_cursor eph_lo eph_hi (k_cursor k) (in_use_port k d t) (conj C1 C2)) as Hcur.
+    destruct (allocate eph_lo eph_hi (k_cursor k) (in_use_port k d t)) as [[p|] c]; cbn [snd] in Hcur.
+    + destruct S as ([P1 P2] & Hfree & _ & _). apply in_use_port_spec in Hfree.
+      assert (Hnc : existsb (fun kb => conflicts (fst kb) (mkkey d t a p)) (k_binds (set_cursor k c)) = false).
+      { apply not_true_is_false. intros Hx. apply (existsb_conflicts (set_cursor k c)) in Hx.
+        revert Hx. apply (port_free_no_conflict (set_cursor k c) a t p). exact Hfree. }
+      rewrite Hnc. cbn [fst snd insert_sock upd set_socks insert_binding set_binds k_cursor set_cursor k_nextfd].
+      split; [|split; apply Hcur]. split; [exact Hok|]. split; [reflexivity|]. split; [exact P1|]. split; [exact P2|exact Hfree].
+    + cbn [fst snd set_cursor k_cursor]. split; [split; [exact Hok|]|split; apply Hcur].
+      intros p P1 P2 Hf. apply in_use_port_spec in Hf.
+      rewrite (S p (conj P1 P2)) in Hf. discriminate.
+Qed.
+
+(* ---- close / remove -------------------------------------------------------------------------- *)
+Lemma find_binds_in (l : list (bkey * list N)) key fd :
+  In fd (find_binds l key) -> exists fds, In (key, fds) l /\ In fd fds.
+Proof.
+  induction l as [|[k' fds] l IH]; cbn; [intros []|].
+  destruct (bkey_eqb k' key) eqn:E.
+  - apply bkey_eqb_eq in E. subst. intros H. exists fds. split; [now left|exact H].
+  - intros H. apply IH in H as (fds' & H1 & H2). exists fds'. split; [now right|exact H2].
+Qed.
+
+Lemma remove_binds_no_fd k fd key : ~ In fd (find_by_bind (remove k fd) key).
+Proof.
+  unfold find_by_bind. cbn [remove k_binds]. intros H. apply find_binds_in in H as (fds & H1 & H2).
+  apply filter_In in H1 as [H1 _]. apply in_map_iff in H1 as ([k' fds'] & E & _). cbn in E.
+  inversion E; subst. unfold drop_fd in H2. apply filter_In in H2 as [_ H2].
+  rewrite N.eqb_refl in H2. discriminate.
+Qed.
+
+Lemma remove_no_empty k fd : forall key fds, In (key, fds) (k_binds (remove k fd)) -> fds <> [].
+Proof.
+  intros key fds H. cbn [remove k_binds] in H. apply filter_In in H as [_ H]. cbn in H.
+  destruct fds; [discriminate|discriminate].
+Qed.
+
+Lemma get_sock_filter l fd fd' :
+  get_sock (filter (fun fs => negb (fst fs =? fd)) l) fd' = if fd' =? fd then None else get_sock l fd'.
+Proof.
+  induction l as [|[f s] l IH]; cbn; [now destruct (fd' =? fd)|].
+  destruct (f =? fd) eqn:E1; cbn.
+  - rewrite IH. apply N.eqb_eq in E1. subst f. destruct (fd' =? fd) eqn:E2; [reflexivity|].
+    rewrite N.eqb_sym, E2. reflexivity.
+  - destruct (f =? fd') eqn:E3.
+    + apply N.eqb_eq in E3. subst f. now rewrite E1.
+    + exact IH.
+Qed.
+
+Lemma remove_get k fd fd' : get (remove k fd) fd' = if fd' =? fd then None else get k fd'.
+Proof. unfold get. cbn [remove k_socks]. apply get_sock_filter. Qed.
+
+Lemma remove_conns k fd local remote : find_connection (remove k fd) local remote <> Some fd.
+Proof.
+  unfold find_connection. cbn [remove k_conns].
+  induction (k_conns k) as [|[[l r] f] cs IH]; cbn; [discriminate|].
+  destruct (N.eqb_spec f fd) as [->|Hne]; cbn; [exact IH|].
+  destruct (conn_key_eqb (l, r) (local, remote)); [congruence|exact IH].
+Qed.
+
+
+(* ---- the binding index is a map: keys unique, no empty groups ------------------------------ *)
+Definition binds_wf (l : list (bkey * list N)) : Prop :=
+  NoDup (map fst l) /\ Forall (fun kb => snd kb <> []) l.
+
+Lemma find_binds_unique l key fds : NoDup (map fst l) -> In (key, fds) l -> find_binds l key = fds.
+Proof.
+  induction l as [|[k' f] l IH]; cbn; [intros _ []|].
+  intros Hn [H|H]; inversion Hn as [|? ? Hx Hl]; subst.
+  - inversion H; subst. now rewrite bkey_eqb_refl.
+  - destruct (bkey_eqb k' key) eqn:E; [|now apply IH].
+    apply bkey_eqb_eq in E. subst. exfalso. apply Hx. apply in_map_iff. exists (key, fds). auto.
+Qed.
+
+Lemma find_binds_none l key : ~ In key (map fst l) -> find_binds l key = [].
+Proof.
+  induction l as [|[k' f] l IH]; cbn; [reflexivity|].
+  intros H. destruct (bkey_eqb k' key) eqn:E; [apply bkey_eqb_eq in E; subst; tauto|]. apply IH. tauto.
+Qed.
+
+Lemma find_binds_nonempty_key l key : find_binds l key <> [] -> In key (map fst l).
+Proof.
+  intros H. destruct (in_dec (fun a b => match bool_dec (bkey_eqb a b) true with
+                                       | left e => left (proj1 (bkey_eqb_eq a b) e)
+                                       | right n => right (fun e => n (proj2 (bkey_eqb_eq a b) e)) end)
+                             key (map fst l)) as [Hi|Hn]; [exact Hi|].
+  now rewrite find_binds_none in H.
+Qed.
+
+Definition removed_binds (fd : N) (l : list (bkey * list N)) : list (bkey * list N) :=
+  filter (fun kb => nonempty (snd kb)) (map (fun kb => (fst kb, drop_fd fd (snd kb))) l).
+
+Lemma removed_binds_keys fd l : incl (map fst (removed_binds fd l)) (map fst l).
+Proof.
+  intros x Hx. apply in_map_iff in Hx as ([k' f] & <- & Hin). apply filter_In in Hin as [Hin _].
+  apply in_map_iff in Hin as ([k2 f2] & E & Hin). cbn in E. injection E as <- _.
+  apply in_map_iff. exists (k2, f2). auto.
+Qed.
+
+Lemma NoDup_map_filter {A B} (f : A -> B) g l : NoDup (map f l) -> NoDup (map f (filter g l)).
+Proof.
+  induction l as [|x l IH]; cbn; [constructor|]. intros Hn. inversion Hn as [|? ? Hx Hl]; subst.
+  destruct (g x); cbn; [constructor|]; auto.
+  intros Hin. apply Hx. apply in_map_iff in Hin as (y & E & Hy). apply filter_In in Hy as [Hy _].
+  apply in_map_iff. eauto.
+Qed.
+
+Lemma removed_binds_wf fd l : NoDup (map fst l) -> binds_wf (removed_binds fd l).
+Proof.
+  intros Hn. split.
+  - unfold removed_binds. apply NoDup_map_filter. rewrite map_map. cbn. exact Hn.
+  - apply Forall_forall. intros [k' f] Hin. apply filter_In in Hin as [_ H]. cbn in *.
+    destruct f; [discriminate|discriminate].
+Qed.
+
+Lemma removed_binds_find fd l key : NoDup (map fst l) ->
+  find_binds (removed_binds fd l) key = drop_fd fd (find_binds l key).
+Proof.
+  induction l as [|[k' f] l IH]; [reflexivity|].
+  intros Hn. inversion Hn as [|? ? Hx Hl]; subst.
+  unfold removed_binds. cbn [map filter fst snd]. fold (removed_binds fd l).
+  destruct (nonempty (drop_fd fd f)) eqn:En; cbn [find_binds].
+  - destruct (bkey_eqb k' key) eqn:E; [reflexivity|now apply IH].
+  - destruct (bkey_eqb k' key) eqn:E; [|now apply IH].
+    destruct (drop_fd fd f); [|discriminate]. apply bkey_eqb_eq in E. subst k'.
+    apply find_binds_none. intros Hin. apply Hx, (removed_binds_keys fd l), Hin.
+Qed.
+
+Lemma remove_find_by_bind k fd key : NoDup (map fst (k_binds k)) ->
+  find_by_bind (remove k fd) key = drop_fd fd (find_by_bind k key).
+Proof. intros H. unfold find_by_bind. cbn [remove k_binds]. now apply removed_binds_find. Qed.
+
+Lemma remove_other_bindings k fd fd' key : NoDup (map fst (k_binds k)) -> fd' <> fd ->
+  (In fd' (find_by_bind (remove k fd) key) <-> In fd' (find_by_bind k key)).
+Proof.
+  intros Hn Hne. rewrite remove_find_by_bind by exact Hn. unfold drop_fd. rewrite filter_In.
+  apply N.eqb_neq in Hne. rewrite Hne. cbn. tauto.
+Qed.
+
+Lemma remove_sole_owner_frees k fd key : NoDup (map fst (k_binds k)) ->
+  find_by_bind k key = [fd] -> ~ In key (keys (remove k fd)).
+Proof.
+  intros Hn Hs Hin. unfold keys in Hin. cbn [remove k_binds] in Hin. fold (removed_binds fd (k_binds k)) in Hin.
+  apply in_map_iff in Hin as ([k' f] & E & Hin). cbn in E. subst k'.
+  destruct (removed_binds_wf fd (k_binds k) Hn) as [Hn' Hne].
+  pose proof (find_binds_unique _ _ _ Hn' Hin) as Hf.
+  rewrite removed_binds_find in Hf by exact Hn. unfold find_by_bind in Hs. rewrite Hs in Hf.
+  cbn in Hf. rewrite N.eqb_refl in Hf. cbn in Hf. subst f.
+  rewrite Forall_forall in Hne. apply (Hne _ Hin). reflexivity.
+Qed.
+
+(* ---- UDP demux ------------------------------------------------------------------------------ *)
+Lemma get_upd k fd f fd' :
+  get (upd k fd f) fd' = if fd' =? fd then option_map f (get k fd') else get k fd'.
+Proof.
+  unfold get, upd. cbn [set_socks k_socks].
+  induction (k_socks k) as [|[x s] l IH]; cbn; [now destruct (fd' =? fd)|].
+  destruct (x =? fd) eqn:E1; cbn.
+  - apply N.eqb_eq in E1. subst x. destruct (fd =? fd') eqn:E2.
+    + apply N.eqb_eq in E2. subst fd'. now rewrite N.eqb_refl.
+    + rewrite IH. reflexivity.
+  - destruct (x =? fd') eqn:E2.
+    + apply N.eqb_eq in E2. subst x. now rewrite E1.
+    + exact IH.
+Qed.
+
+Lemma udp_target_spec k p :
+  let d := dom_of (p_dst p) in
+  let exact := find_by_bind k (mkkey d Dgram (p_dst p) (p_dport p)) in
+  let wild := find_by_bind k (mkkey d Dgram (unspec_like (p_dst p)) (p_dport p)) in
+  udp_target k p = match hd_error exact with Some fd => Some fd | None => hd_error wild end.
+Proof.
+  cbn zeta. unfold udp_target.
+  destruct (find_by_bind k (mkkey (dom_of (p_dst p)) Dgram (p_dst p) (p_dport p))); [|reflexivity].
+  destruct (find_by_bind k (mkkey (dom_of (p_dst p)) Dgram (unspec_like (p_dst p)) (p_dport p))); reflexivity.
+Qed.
+
+Lemma udp_deliver_frame k p :
+  k_binds (udp_deliver k p) = k_binds k /\ k_conns (udp_deliver k p) = k_conns k /\
+  k_out (udp_deliver k p) = k_out k /\ k_cursor (udp_deliver k p) = k_cursor k /\
+  (forall fd', udp_target k p <> Some fd' -> get (udp_deliver k p) fd' = get k fd').
+Proof.
+  unfold udp_deliver. destruct (udp_target k p) as [fd|]; [|repeat split; reflexivity].
+  destruct (get k fd) as [s|] eqn:G; [|repeat split; reflexivity].
+  destruct (peer_ok s (p_src p, p_sport p)); [|repeat split; reflexivity].
+  repeat split; try reflexivity. intros fd' Hne. rewrite get_upd.
+  destruct (fd' =? fd) eqn:E; [|reflexivity]. apply N.eqb_eq in E. subst. congruence.
+Qed.
+
+Lemma udp_deliver_target k p fd s :
+  udp_target k p = Some fd -> get k fd = Some s ->
+  get (udp_deliver k p) fd =
+    Some (if peer_ok s (p_src p, p_sport p)
+          then sk_queue s (s_queue s ++ [((p_src p, p_sport p), p_id p)]) else s).
+Proof.
+  intros Ht G. unfold udp_deliver. rewrite Ht, G.
+  destruct (peer_ok s (p_src p, p_sport p)); [|exact G].
+  rewrite get_upd, N.eqb_refl, G. reflexivity.
+Qed.
+
+Lemma udp_deliver_no_target k p : udp_target k p = None -> udp_deliver k p = k.
+Proof. intros H. unfold udp_deliver. now rewrite H. Qed.
+
+(* ---- TCP demux ------------------------------------------------------------------------------ *)
+Lemma find_listener_spec k local l :
+  find_listener k local = Some l ->
+  is_listening k l = true /\
+  let d := dom_of (fst local) in
+  (In l (find_by_bind k (mkkey d Stream (fst local) (snd local))) \/
+   (In l (find_by_bind k (mkkey d Stream (unspec_like (fst local)) (snd local))) /\
+    forall x, In x (find_by_bind k (mkkey d Stream (fst local) (snd local))) -> is_listening k x = false)).
+Proof.
+  unfold find_listener.
+  destruct (find (is_listening k) (find_by_bind k (mkkey (dom_of (fst local)) Stream (fst local) (snd local)))) as [x|] eqn:E1.
+  - intros [= <-]. apply find_some in E1 as [H1 H2]. split; [exact H2|]. now left.
+  - intros E2. apply find_some in E2 as [H1 H2]. split; [exact H2|]. right. split; [exact H1|].
+    intros x Hx. apply (find_none _ _ E1 x Hx).
+Qed.
+
+Lemma find_listener_none k local :
+  find_listener k local = None ->
+  let d := dom_of (fst local) in
+  forall x, In x (find_by_bind k (mkkey d Stream (fst local) (snd local)) ++
+                  find_by_bind k (mkkey d Stream (unspec_like (fst local)) (snd local))) ->
+            is_listening k x = false.
+Proof.
+  unfold find_listener.
+  destruct (find (is_listening k) (find_by_bind k (mkkey (dom_of (fst local)) Stream (fst local) (snd local)))) as [x|] eqn:E1;
+    [discriminate|].
+  intros E2 x Hx. apply in_app_or in Hx as [Hx|Hx]; [apply (find_none _ _ E1 x Hx)|apply (find_none _ _ E2 x Hx)].
+Qed.
+
+Lemma tcp_demux_spec k p :
+  let local := (p_dst p, p_dport p) in
+  let remote := (p_src p, p_sport p) in
+  let bare_syn := has (p_flags p) F_SYN && negb (has (p_flags p) F_ACK) in
+  match tcp_demux k p with
+  | ToConn fd => find_connection k local remote = Some fd
+  | ToListener l => find_connection k local remote = None /\ bare_syn = true /\ find_listener k local = Some l
+  | ReplyRst => find_connection k local remote = None /\
+                ((bare_syn = true /\ find_listener k local = None) \/
+                 (bare_syn = false /\ has (p_flags p) F_RST = false))
+  | Silent => find_connection k local remote = None /\ bare_syn = false /\ has (p_flags p) F_RST = true
+  end.
+Proof.
+  cbn zeta. unfold tcp_demux.
+  destruct (find_connection k (p_dst p, p_dport p) (p_src p, p_sport p)); [reflexivity|].
+  destruct (has (p_flags p) F_SYN && negb (has (p_flags p) F_ACK)).
+  - destruct (find_listener k (p_dst p, p_dport p)); auto.
+  - destruct (has (p_flags p) F_RST); cbn; auto.
+Qed.
+
+(* ---- the fabric ----------------------------------------------------------------------------- *)
+Lemma route_from_spec hs a : forall i j,
+  route_from i hs a = Some j ->
+  (i <= j)%nat /\ exists k, nth_error hs (j - i) = Some k /\ mem_ip a (k_addrs k) = true.
+Proof.
+  induction hs as [|k r IH]; intros i j; cbn; [discriminate|].
+  destruct (mem_ip a (k_addrs k)) eqn:E.
+  - intros [= <-]. split; [lia|]. exists k. rewrite Nat.sub_diag. auto.
+  - intros H. apply IH in H as (H1 & k' & H2 & H3). split; [lia|]. exists k'. split; [|exact H3].
+    replace (j - i)%nat with (S (j - S i)) by lia. exact H2.
+Qed.
+
+Lemma route_from_none hs a : forall i,
+  route_from i hs a = None -> forall k, In k hs -> mem_ip a (k_addrs k) = false.
+Proof.
+  induction hs as [|k r IH]; intros i; cbn; [intros _ k []|].
+  destruct (mem_ip a (k_addrs k)) eqn:E; [discriminate|].
+  intros H k' [<-|Hk]; [exact E|]. eapply IH; eauto.
+Qed.
+
+Lemma upd_nth_other {A} (l : list A) i f j : i <> j -> nth_error (upd_nth l i f) j = nth_error l j.
+Proof.
+  revert i j. induction l as [|x r IH]; intros i j Hne; destruct i, j; cbn; try reflexivity; try congruence.
+  apply IH. congruence.
+Qed.
+
+Lemma upd_nth_same {A} (l : list A) i f : nth_error (upd_nth l i f) i = option_map f (nth_error l i).
+Proof. revert i. induction l as [|x r IH]; intros i; destruct i; cbn; auto. Qed.
+
+Lemma upd_nth_length {A} (l : list A) i f : length (upd_nth l i f) = length l.
+Proof. revert i. induction l as [|x r IH]; intros i; destruct i; cbn; auto. Qed.
+
+Lemma fdeliver_spec hs p :
+  length (fdeliver hs p) = length hs /\
+  match route hs (p_dst p) with
+  | Some i => (exists k, nth_error hs i = Some k /\ mem_ip (p_dst p) (k_addrs k) = true /\
+                         nth_error (fdeliver hs p) i = Some (kdeliver k p)) /\
+              (forall j, j <> i -> nth_error (fdeliver hs p) j = nth_error hs j)
+  | None => fdeliver hs p = hs /\ forall k, In k hs -> mem_ip (p_dst p) (k_addrs k) = false
+  end.
+Proof.
+  unfold fdeliver, route. destruct (route_from 0 hs (p_dst p)) as [i|] eqn:E.
+  - split; [apply upd_nth_length|]. apply route_from_spec in E as (_ & k & H1 & H2).
+    rewrite Nat.sub_0_r in H1. split.
+    + exists k. split; [exact H1|]. split; [exact H2|]. now rewrite upd_nth_same, H1.
+    + intros j Hj. apply upd_nth_other. congruence.
+  - split; [reflexivity|]. split; [reflexivity|]. eapply route_from_none; eauto.
+Qed.
+
+(* ---- egress: nothing local leaves ------------------------------------------------------------- *)
+Ltac break_match :=
+  repeat match goal with
+         | |- context [match ?x with _ => _ end] => destruct x eqn:?
+         | |- context [if ?x then _ else _] => destruct x eqn:?
+         end.
+
+Lemma upd_addrs k fd f : k_addrs (upd k fd f) = k_addrs k. Proof. reflexivity. Qed.
+Lemma emit_addrs k s d f t : k_addrs (emit k s d f t) = k_addrs k. Proof. reflexivity. Qed.
+Lemma remove_addrs k fd : k_addrs (remove k fd) = k_addrs k. Proof. reflexivity. Qed.
+
+Lemma push_to_listener_addrs k c l : k_addrs (push_to_listener k c l) = k_addrs k.
+Proof. unfold push_to_listener. destruct (find_listener k l); reflexivity. Qed.
+
+Lemma accept_syn_addrs k l a b : k_addrs (accept_syn k l a b) = k_addrs k.
+Proof.
+  unfold accept_syn, insert_sock. destruct (get k l) as [s|]; [|reflexivity].
+  destruct (s_listen s) as [[bl rd]|]; [|reflexivity].
+  destruct (bl <=? count_children k l a + N.of_nat (length rd)); reflexivity.
+Qed.
+
+Lemma conn_deliver_addrs k fd a b p : k_addrs (conn_deliver k fd a b p) = k_addrs k.
+Proof.
+  unfold conn_deliver. break_match; try reflexivity; rewrite ?emit_addrs, ?push_to_listener_addrs; reflexivity.
+Qed.
+
+Lemma kdeliver_addrs k p : k_addrs (kdeliver k p) = k_addrs k.
+Proof.
+  unfold kdeliver, udp_deliver, tcp_deliver, emit_rst.
+  break_match; try reflexivity; rewrite ?conn_deliver_addrs, ?accept_syn_addrs; reflexivity.
+Qed.
+
+Lemma egress_pass_spec drained : forall k,
+  k_addrs (fst (egress_pass k drained)) = k_addrs k /\
+  snd (egress_pass k drained) = filter (fun p => negb (is_local (k_addrs k) (p_dst p))) drained.
+Proof.
+  induction drained as [|p r IH]; intros k; cbn [egress_pass filter]; [split; reflexivity|].
+  unfold is_local_k. destruct (is_local (k_addrs k) (p_dst p)) eqn:E; cbn [negb].
+  - destruct (IH (kdeliver k p)) as [H1 H2]. rewrite kdeliver_addrs in *. split; assumption.
+  - destruct (IH k) as [H1 H2]. destruct (egress_pass k r) as [k' o]. cbn in *. split; [exact H1|now rewrite H2].
+Qed.
+
+Lemma egress_loop_spec fuel : forall k,
+  k_addrs (fst (egress_loop fuel k)) = k_addrs k /\
+  Forall (fun p => is_local (k_addrs k) (p_dst p) = false) (snd (egress_loop fuel k)).
+Proof.
+  induction fuel as [|f IH]; intros k; cbn [egress_loop]; [split; [reflexivity|constructor]|].
+  destruct (k_out k) as [|p0 l0] eqn:E; [split; [reflexivity|constructor]|].
+  destruct (egress_pass_spec (p0 :: l0) (set_out k [])) as [H1 H2].
+  destruct (egress_pass (set_out k []) (p0 :: l0)) as [k1 o]. cbn [fst snd] in *.
+  destruct (IH k1) as [H3 H4]. destruct (egress_loop f k1) as [k2 o']. cbn [fst snd] in *.
+  change (k_addrs (set_out k [])) with (k_addrs k) in *.
+  split; [congruence|]. apply Forall_app; split.
+  - rewrite H2. apply Forall_forall. intros x Hx. apply filter_In in Hx as [_ Hx]. now apply negb_true_iff in Hx.
+  - rewrite H1 in H4. exact H4.
+Qed.
+
+Lemma kegress_nonlocal fuel k :
+  Forall (fun p => is_local (k_addrs k) (p_dst p) = false) (snd (kegress_k fuel k)).
+Proof.
+  unfold kegress_k. destruct (egress_loop_spec fuel k) as [_ H].
+  destruct (egress_loop fuel k) as [k1 o]. exact H.
+Qed.
